@@ -7,7 +7,7 @@ use crate::model::{domains, equiv, Refs};
 use serde_json::{json, Value};
 
 pub fn tokens(f: Family) -> Vec<Vec<u8>> {
-	let mut v: Vec<&str> = vec!["a", "A", "%41", "%C3", "%A9", "%80", "%BF", "%C0", "%C1", "%E0", "%ED", "%A0", "%F0", "%F4", "%90", "%F5", "%FF", "%2F", "%25", "%E2", "%82", "%AC"];
+	let mut v: Vec<&str> = vec!["a", "A", "%41", "%C3", "%A9", "%80", "%BF", "%C0", "%C1", "%E0", "%ED", "%A0", "%F0", "%F4", "%90", "%F5", "%FF", "%2F", "%25", "%E2", "%82", "%AC", "+"];
 	if f == Family::Iri {
 		v.push("é");
 	}
@@ -94,6 +94,29 @@ pub fn run(ctx: &Ctx) -> Report {
 			}
 			for v in vs.drain(..) {
 				r.violate(v);
+			}
+		}
+		// every printable ASCII character the component allows, literally, next to a letter and next
+		// to an escape (a view that rewrites one specific character - '+', '~', ... - shows here)
+		for k in KINDS {
+			for t in domains::ascii_sweep(&["X", "aXa", "%41X", "X%C3%A9"]) {
+				if !refs.valid(f, k, &t) {
+					continue;
+				}
+				r.states += 1;
+				for emb in [false, true] {
+					if emb && ((k == Kind::UserInfo && t.contains(&b'@')) || (k == Kind::Host && (t.contains(&b':') || t.contains(&b'@') || t.contains(&b'['))) || (k == Kind::UserInfo && t.contains(&b':') && false)) {
+						continue;
+					}
+					let e = by_family!(f, c19_case(k, &t, emb, &oth, &mut vs));
+					r.evaluations += e;
+					r.transitions += e;
+					r.distinct_nontrivial += 1;
+					r.traces += 1;
+				}
+				for v in vs.drain(..) {
+					r.violate(v);
+				}
 			}
 		}
 		total.count("extra_component_values", r.states);
